@@ -429,6 +429,7 @@ func checkC11(c *Ctx) {
 	c.checkC11Login(handlerOfKind)
 	c.checkSenderHeader()
 	c.checkLongPollSerialised()
+	c.checkFeaturesAccumulate()
 }
 
 func keys(m map[string]bool) []string {
